@@ -159,8 +159,8 @@ def r14_4(ctx):
             pops = [x for x in after if q.E[x][2]['k'] == 'usercb' and callback_kind(ctx, q, q.E[x][2]) == 'populate']
             # populate is called on every path from the arm to an Ok exit
             esc = q.must_follow(E, pops, oks)
-            anon = bool(pops) and all(VAL[obj_root(q.E[x][2]['args'][0])][0] == 'sym' and
-                                      prims.classify(VAL[obj_root(q.E[x][2]['args'][0])][2])[0] == 'temp_create_anon' for x in pops)
+            # populated into a private temporary file of this very call (anonymous or named), never into the hit itself
+            anon = bool(pops) and all(is_temp_object(obj_root(q.E[x][2]['args'][0])) for x in pops)
             C = [c for c in checker_calls(ctx, q) if c in after]
             okE = [x for x in outcomes(q, pops, 'Ok') if x in after]   # same-site results of the other arm are not ours
             esc2 = q.must_follow(okE, C, oks)
@@ -168,7 +168,7 @@ def r14_4(ctx):
             if esc:
                 why.append('the hit can be returned without calling populate for comparison')
             if not anon:
-                why.append('the comparison value is not populated into an anonymous temp file')
+                why.append('the comparison value is not populated into a private temporary file')
             if esc2 or not okE:
                 why.append('a successfully populated value is not passed to the checker')
             # Err handling: NotFound => Ok(hit); others => Err
